@@ -57,13 +57,14 @@ type Cfg struct {
 	ExpireAfter  time.Duration
 	RecoverTTL   time.Duration
 
-	Whitelist    []string
-	LogoutMethod string
-	Err500       bool // error handler that writes a 500 instead of the silent default
-	OnUnauthed   int  // authboss.MWRespondOnFailure for the library's own protected routes
-	Providers    []string
-	ProfileKeys  []string // application's declared profile fields (PutArbitrary keeps only these)
-	RegWhitelist []string // body reader whitelist for the register page (nil = shipped default)
+	Whitelist        []string
+	LogoutMethod     string
+	Err500           bool // error handler that writes a 500 instead of the silent default
+	OnUnauthed       int  // authboss.MWRespondOnFailure for the library's own protected routes
+	Providers        []string
+	ProfileKeys      []string // application's declared profile fields (PutArbitrary keeps only these)
+	RegWhitelist     []string // body reader whitelist for the register page (nil = shipped default)
+	PersistArbitrary bool     // the user type stores every key PutArbitrary hands it (only sensible with an explicit RegWhitelist)
 }
 
 func (c Cfg) Has(mod string) bool {
@@ -245,6 +246,7 @@ func New(cfg Cfg, salt string) (w *World, err error) {
 	w.Store = newStorer(w)
 	w.Store.OneTime = cfg.OneTimeTOTP
 	w.Store.ProfileKeys = cfg.ProfileKeys
+	w.Store.PersistAll = cfg.PersistArbitrary
 	w.Store.OAuth2Confirmed = cfg.OAuth2Confirmed
 	w.Sess = newSessionStore(w)
 	w.Cook = &CookieStore{w: w}
